@@ -378,6 +378,7 @@ def check(run):
     check_refused_start(run)
     check_stop_with_closed_loop(run)
     check_stop_by_supporting_coroutine(run)
+    check_send_from_simulation_task(run)
 
 
 def check_stop_by_supporting_coroutine(run):
@@ -434,6 +435,66 @@ def check_stop_by_supporting_coroutine(run):
                       f"cancellation: {obs['sends']} (expected [k, is_ready()=False, 'refused', 'EdzedInvalidState']), "
                       f"output of the destination {obs['output']!r} (expected 'running'), run() {obs['run']}; "
                       f"harness: {obs['harness']}", clause='stop_by_supporting_coroutine', concrete=True)
+
+
+def check_send_from_simulation_task(run):
+    """'after any kind of stop and while the circuit is shutting down it raises EdzedInvalidState and
+    delivers nothing' - whoever the sender is: code running INSIDE the simulation task (a block's stop()
+    hook during the clean-up; an event handler that goes on after it has called abort()) is refused like
+    everybody else."""
+    from . import vloop
+    obs = dict(handler=None, cleanup=None, output=None, harness=None)
+
+    async def main(loop):
+        edzed.reset_circuit()
+        circuit = edzed.get_circuit()
+        inp = edzed.Input('inp', initdef='initial')
+        ext = edzed.ExtEvent(inp, source='inside')
+
+        def attempt(tag):
+            try:
+                return ['delivered', repr(ext.send(tag)), circuit.is_ready()]
+            except Exception as err:             # noqa
+                return ['refused', type(err).__name__, circuit.is_ready()]
+
+        class Inside(edzed.SBlock):
+            def init_regular(self):
+                self.set_output(0)
+
+            def _event_fail(self, **_data):
+                # reached from a CBlock's on_output, i.e. inside the simulation task
+                self.circuit.abort(RuntimeError('stop requested by a handler'))
+                obs['handler'] = attempt('after abort')
+
+            def stop(self):
+                obs['cleanup'] = attempt('from stop()')
+        ins = Inside('ins')
+        trig = edzed.Input('trig', initdef=0)
+        edzed.FuncBlock('fb', func=lambda v: v, on_output=edzed.Event(ins, 'fail', efilter=edzed.not_from_undef)
+                        ).connect(trig)
+        task = asyncio.create_task(circuit.run_forever())
+        await circuit.wait_init()
+        trig.event('put', value=1)
+        await asyncio.wait([task], timeout=2.0)
+        obs['output'] = inp.output
+    try:
+        vloop.run_virtual(main, wall_limit_s=10.0)
+    except BaseException as err:                  # noqa
+        obs['harness'] = repr(err)[:200]
+    finally:
+        edzed.reset_circuit()
+    run.add_case(dict(send_from_simulation_task=True), True)
+    run.count('send_from_simulation_task')
+    want = ['refused', 'EdzedInvalidState', False]
+    ok = (obs['harness'] is None and obs['handler'] == want and obs['cleanup'] == want
+          and obs['output'] == 'initial')
+    run.add_obligation(ok)
+    if not ok:
+        run.violation('monitor', dict(case=dict(send_from_simulation_task=True), observed=obs),
+                      f"external events sent from inside the simulation task of a circuit that is being stopped: by "
+                      f"a handler after its own abort() -> {obs['handler']}, by a block's stop() during the clean-up "
+                      f"-> {obs['cleanup']} (expected {want} twice), destination output {obs['output']!r} (expected "
+                      f"'initial'); harness: {obs['harness']}", clause='send_from_simulation_task', concrete=True)
 
 
 def check_stop_with_closed_loop(run):
@@ -558,6 +619,8 @@ def replay(run, path):
         return common.directed_replay(run, path, lambda: check_refused_start(run))
     if isinstance(case, dict) and 'stop_with_closed_loop' in case:
         return common.directed_replay(run, path, lambda: check_stop_with_closed_loop(run))
+    if isinstance(case, dict) and 'send_from_simulation_task' in case:
+        return common.directed_replay(run, path, lambda: check_send_from_simulation_task(run))
     if isinstance(case, dict) and 'stop_by_supporting_coroutine' in case:
         return common.directed_replay(run, path, lambda: check_stop_by_supporting_coroutine(run))
     return common.std_replay(run, C14(), path)
